@@ -40,6 +40,9 @@ type Action struct {
 	// Hold (TCP): after this action the endpoint keeps the connection open for this long WITHOUT reading from it or reacting to
 	// the peer's FIN (a controller that is slow to close, a middlebox that holds half-closed connections), then closes it
 	Hold time.Duration
+	// HalfClose (TCP): after this action the endpoint shuts down its SENDING side only (FIN after the reply) and goes on reading
+	// whatever the client still sends on the connection
+	HalfClose bool
 }
 
 type UDP struct {
@@ -307,6 +310,11 @@ func (e *TCP) PlayTCP(r Received, actions []Action) {
 		}
 		if a.Close {
 			return
+		}
+		if a.HalfClose {
+			if tc, ok := c.(*net.TCPConn); ok {
+				tc.CloseWrite()
+			}
 		}
 		if a.Hold > 0 {
 			sleepOrClosed(e.closed, a.Hold)
